@@ -21,7 +21,10 @@ Inductive xop :=
 | XStatus (max : N)
 | XMove (id : N) (s : status)
 | XMoveLast (s : status)           (* the Agglayer moves the certificate it accepted last *)
-| XFail.
+| XFail
+| XRestart (lost : bool)           (* new process on the same / an empty certificate database, start-up reconciliation *)
+| XCrashEpoch (max : N)            (* epoch tick during which the process dies between "accepted" and "row stored"; restart *)
+| XCrashStatus (max : N).
 
 (* ---------- observations ---------- *)
 Record exit_obs := mkXO { xo_exit : bridge_exit; xo_hash : N }.                 (* fields + BridgeExit.Hash() *)
@@ -31,10 +34,12 @@ Record sub_obs := mkSO { so_id : N; so_height : N; so_prev : N; so_new : N; so_m
 Record row_obs := mkRO { ro_height : N; ro_id : option N; ro_status : status; ro_from : N; ro_to : N;
                          ro_prev : option N; ro_new : N; ro_retry : N }.
 Record step_obs := mkST { st_subs : list sub_obs; st_rows : option (list row_obs) (* None: same as after the previous event *);
-                          st_synced : N }.
+                          st_synced : N;
+                          st_refused : option bool (* a start-up reconciliation ran during this event: was it refused *) }.
 (* c_seeds: certificates that exist before the sender starts (rows of certificate_info = the Agglayer's records),
    ascending height, ids 0,1,2,... *)
-Record case02 := mkCase02 { c_retry : bool; c_start : N; c_start_ler : N; c_pre : list xop; c_seeds : list row_obs;
+Record case02 := mkCase02 { c_retry : bool; c_aggprev : bool (* Agglayer headers carry prev_local_exit_root *);
+                            c_start : N; c_start_ler : N; c_pre : list xop; c_seeds : list row_obs;
                             c_steps : list xop; c_obs : list step_obs }.
 
 (* ---------- equality helpers ---------- *)
@@ -78,14 +83,17 @@ Definition cut_of (start : N) (s : xstate) (max : N) : N :=
   | _ => 0
   end.
 
-Definition to_event (start : N) (s : xstate) (x : xop) : xevent :=
+Definition to_event (start : N) (s : xstate) (x : xop) : xrevent :=
   match x with
-  | XBlock skip bs cs => NewBlock skip bs cs
-  | XEpoch max => EpochTick (cut_of start s max)
-  | XStatus max => StatusTick (cut_of start s max)
-  | XMove id st => AggMove id st
-  | XMoveLast st => AggMove (if next_id s =? 0 then 0 else next_id s - 1) st    (* id 0 with no certificate: ignored *)
-  | XFail => AggFailNext
+  | XBlock skip bs cs => RCore (NewBlock skip bs cs)
+  | XEpoch max => RCore (EpochTick (cut_of start s max))
+  | XStatus max => RCore (StatusTick (cut_of start s max))
+  | XMove id st => RCore (AggMove id st)
+  | XMoveLast st => RCore (AggMove (if next_id s =? 0 then 0 else next_id s - 1) st)    (* id 0 with no certificate: ignored *)
+  | XFail => RCore AggFailNext
+  | XRestart lost => RRestart lost
+  | XCrashEpoch max => RCrashTick true (cut_of start s max)
+  | XCrashStatus max => RCrashTick false (cut_of start s max)
   end.
 
 (* what the model expects the Agglayer to receive / the table to hold, in the shape of the observations *)
@@ -105,39 +113,44 @@ Definition sub_matches (m : xsub) (o : sub_obs) : bool :=
   meta_bytes (s_meta m) (so_meta o) &&
   list_eqb exit_obs_eqb (map exp_exit (s_exits m)) (so_exits o) && list_eqb imp_obs_eqb (map exp_imp (s_imported m)) (so_imp o).
 Definition exp_row (r : xrow) : row_obs :=
-  mkRO (height r) (Some (cid r)) (st r) (from r) (to r) (Some (prev r)) (new r) (retry r).
+  mkRO (height r) (Some (cid r)) (st r) (from r) (to r) (if r_hasprev r then Some (prev r) else None) (new r) (retry r).
 
 (* run the schedule on the model and compare after every event; [last] = the last observed table *)
-Fixpoint corr_run (retry : bool) (start ler : N) (s : xstate) (steps : list xop) (obs : list step_obs) (last : list row_obs) : bool :=
+Fixpoint corr_run (retry aggprev : bool) (start ler : N) (s : xrstate) (steps : list xop) (obs : list step_obs) (last : list row_obs) : bool :=
   match steps, obs with
   | [], [] => true
   | x :: steps', o :: obs' =>
-    let '(s', subs) := xstep retry start ler s (to_event start s x) in
+    let '(s', subs) := xrstep retry start ler aggprev s (to_event start (xr_core s) x) in
     let rows_now := match st_rows o with Some r => r | None => last end in
     list_rel sub_matches subs (st_subs o) &&
-    list_eqb row_obs_eqb (map exp_row (rev (rows s'))) rows_now &&       (* certificate_info ORDER BY height ASC *)
-    (synced s' =? st_synced o) &&
-    corr_run retry start ler s' steps' obs' rows_now
+    list_eqb row_obs_eqb (map exp_row (rev (rows (xr_core s')))) rows_now &&       (* certificate_info ORDER BY height ASC *)
+    (synced (xr_core s') =? st_synced o) &&
+    match st_refused o with Some b => Bool.eqb b (xr_recovering s') | None => true end &&
+    corr_run retry aggprev start ler s' steps' obs' rows_now
   | _, _ => false
   end.
 
 (* the pre-history is synced before the sender exists *)
 Definition pre_state (pre : list xop) : xstate :=
-  fold_left (fun s x => fst (xstep false 0 0 s (to_event 0 s x))) pre xstate_empty.
+  fold_left (fun s x => match x with XBlock skip bs cs => fst (xstep false 0 0 s (NewBlock skip bs cs)) | _ => s end) pre xstate_empty.
 
 Definition seed_row (s : xstate) (o : row_obs) : xrow :=
   Row (ro_height o) (match ro_id o with Some i => i | None => 0 end) (ro_status o) (ro_from o) (ro_to o)
       (match ro_prev o with Some p => p | None => 0 end) (ro_new o) (ro_retry o)
-      (bridges_in (l2 s) (ro_from o) (ro_to o)) (claims_in (l2 s) (ro_from o) (ro_to o)).
-Definition seeded_state (s : xstate) (seeds : list row_obs) : xstate :=
-  State (l2 s) (synced s) (tr s) (roots s) (rev (map (seed_row s) seeds))
-        (rev (map (fun o => AC (match ro_id o with Some i => i | None => 0 end) (ro_height o) (ro_status o)) seeds))
-        (N.of_nat (length seeds)) false.
+      (bridges_in (l2 s) (ro_from o) (ro_to o)) (claims_in (l2 s) (ro_from o) (ro_to o))
+      (match ro_prev o with Some _ => true | None => false end).
+Definition seeded_state (s : xstate) (seeds : list row_obs) : xrstate :=
+  XR (State (l2 s) (synced s) (tr s) (roots s) (rev (map (seed_row s) seeds))
+            (rev (map (fun o => AC (match ro_id o with Some i => i | None => 0 end) (ro_height o) (ro_status o)) seeds))
+            (N.of_nat (length seeds)) false)
+     (map (fun o => XI (match ro_id o with Some i => i | None => 0 end) (ro_from o) (ro_to o)
+                       (match ro_prev o with Some p => p | None => 0 end) (ro_new o)) seeds)
+     false.
 
 Definition corr (c : case02) : bool :=
   let s0 := seeded_state (pre_state (c_pre c)) (c_seeds c) in
   (* getStartLER(): the tree root at the start block (the empty-tree root when nothing was deposited) *)
-  corr_run (c_retry c) (c_start c) (c_start_ler c) s0 (c_steps c) (c_obs c) [].
+  corr_run (c_retry c) (c_aggprev c) (c_start c) (c_start_ler c) s0 (c_steps c) (c_obs c) [].
 
 (* ------------------------------------------------------------------------------------------ *)
 (* the properties, on the implementation's observations                                         *)
@@ -265,7 +278,7 @@ Definition spec_c02 (c : case02) : bool :=
 Definition ref_leaf (b : bridge_ev) : N :=
   get_leaf_value (b_lt b) (b_onet b) (b_oaddr b) (b_dnet b) (b_daddr b) (b_amount b) (keccakN (b_meta b)).
 
-Definition cert_ok_b (e : env) (rows : list row_obs) (o : sub_obs) : bool :=
+Definition cert_ok_b (crash : bool) (e : env) (rows : list row_obs) (o : sub_obs) : bool :=
   match sub_range o with
   | None => false
   | Some (f, t) =>
@@ -279,9 +292,10 @@ Definition cert_ok_b (e : env) (rows : list row_obs) (o : sub_obs) : bool :=
     list_rel ref_exit_ok (hist_bridges e f t) (map xo_exit (so_exits o)) &&
     list_rel ref_imp_ok (hist_claims e f t) (map (fun i => (xo_exit (io_exit i), io_gi i)) (so_imp o)) &&
     (* the metadata's range is the one recorded with the certificate; type pp; V2 layout *)
+    (* (after a crash tick the row is the one the start-up reconciliation rebuilt, if it accepted to) *)
     match find (fun r => opt_eqb N.eqb (ro_id r) (Some (so_id o))) rows with
     | Some r => (ro_from r =? f) && (ro_to r =? t)
-    | None => false
+    | None => crash
     end &&
     match meta_decode (so_meta o) with Some d => (m_ctype d =? 1) && Nat.eqb (length (so_meta o)) 32 | None => false end
   end.
@@ -292,7 +306,7 @@ Fixpoint spec03_run (e : env) (steps : list xop) (obs : list step_obs) (last : l
   | x :: steps', o :: obs' =>
     let e1 := env_step e x in
     let rows_now := match st_rows o with Some r => r | None => last end in
-    forallb (cert_ok_b e1 rows_now) (st_subs o) &&
+    forallb (cert_ok_b (match x with XCrashEpoch _ | XCrashStatus _ => true | _ => false end) e1 rows_now) (st_subs o) &&
     spec03_run (fold_left env_accept (st_subs o) e1) steps' obs' rows_now
   | _ :: _, [] => false
   end.
